@@ -75,6 +75,15 @@ def check_case(rep, case, name):
             for x in (0.5 * d, d, d + 0.3 * (a - d), (d + a) / 2, a, a + 0.5):
                 if not close(s1(x), s2(x), 1e-9, 1e-11): rep.dev(name, case, 'spline() modifier at %r: %r' % (x, s2(x)), 'SplinePotential: %r' % s1(x)); return
             rep.ok(6)
+            # the same spline with the end potential given as a potential modifier behind an exclusive attach marker (`>attach`, the style
+            # of the as.buck4 shorthand): the end potential is fitted at the attach point itself, so its own range must not apply there
+            defn3 = 'spline(>0 %s >=%r exp_spline >%r sum(%s, as.constant 0.0))' % (to_config(case['A']), d, a, to_config(case['B']))
+            try: s3 = from_config(defn3)
+            except Exception as e: rep.dev(name, case, 'modifier end potential behind >attach rejected: %s' % str(e)[:120], 'SplinePotential'); return
+            for x in (0.5 * d, d, d + 0.3 * (a - d), (d + a) / 2, a, a + 0.5):
+                tol_ = 1e-7 if x == a else 1e-9
+                if not close(s1(x), s3(x), tol_, 1e-11): rep.dev(name, case, 'spline() with a modifier end potential behind >attach at %r: %r' % (x, s3(x)), 'SplinePotential: %r' % s1(x)); return
+            rep.ok(6)
         elif k == 'nested':
             A, rho, C, d1, m1, a1 = case['params']; d, a = case['d'], case['a']
             inner = pf.buck4(A, rho, C, d1, m1, a1); outer_end = pf.zero()
